@@ -101,7 +101,8 @@ def explore(make_bodies, on_run, max_schedules=None):
         s, results, excs = run_schedule(make_bodies(), prefix)
         count += 1
         traces.add(tuple(s.trace))
-        on_run(s, results, excs)
+        if on_run(s, results, excs) is False:
+            return count, len(traces), False
         for k in range(len(prefix), len(s.trace)):
             stack.append([s.enabled_log[k], 0])
         while stack and stack[-1][1] + 1 >= len(stack[-1][0]):
